@@ -14,7 +14,21 @@ elsewhere).  For every step of every generated input (gen/gr_resolver_inputs.py)
       they inherit it) equal to the fragment name; the resolver's own 'mapping' record, when present, must itself
       be that isomorphism; a node without fragment (virtual) owns nothing.
 
-Scope decisions: shared atoms (`!`) are C10's; 'aromatic', 'hcount', 'bonding' and the all-atom 'atomname' are not
+  (c) shared atoms (gen shared_cases: one atom shared by 2, 3 or 4 coarse nodes; the hub fragment first / in the middle /
+      last in the base string; the non-hub fragments bonded to each other or not; all pairs marked; two hubs; all-atom
+      and coarse): the fine graph and the membership of every atom are known BY CONSTRUCTION - an atom written with `!`
+      belongs to all coarse nodes whose fragments were merged there.  Demanded: clause (a) with multi-entry fragid lists
+      (bi-implication with coarse 'graph', covering), an isomorphism heavy fine graph <-> constructed graph under which
+      every atom's fragid is exactly (each once) the set of coarse nodes that contain it and its 'mapping' record exactly
+      the template atoms it stems from; completed hydrogens carry the membership of the atom they sit on; an unshared atom
+      reports its coarse node's fragment name, a shared atom the name of one of its coarse nodes.
+  (d) falsy annotations (gen zero_weight_cases): weight 0 on explicit hydrogens and on heavy atoms must arrive on the
+      copies like any other annotation (clause b); fragment names defined on several levels (gen layered_reuse_cases).
+
+Scope decisions: shared atoms (`!`) only in family (c) - every pair has a label of its own (which atoms merge does not
+depend on the search order), no aromatic shared atoms (findings C10-4/5), no annotations on shared atoms, the all-atom
+'atomname' of a shared atom may differ between the membership graphs (it is numbered per coarse node, C12); that the
+molecule as a whole is the right one is C10's; 'aromatic', 'hcount', 'bonding' and the all-atom 'atomname' are not
 per-atom annotations (pysmiles / C09 / C03 / C12); the coarse node's fragment name is taken from the intended base
 graph at the first step (by construction) and from the returned coarse graph at later steps (C06 checks that
 chain).  A base string the reader does not read as intended is skipped (C04/C05).  Base graphs handed to
@@ -36,23 +50,31 @@ BOUNDS = {
               'designs': ['unique', 'homo', 'free'], 'last_level': ['all-atom', 'coarse'], 'legacy': [True, False],
               'virtual_node': 'first / middle / last on graphs <= 3 nodes', 'multiplied_units': '|2 |3, flat multiplied branch',
               'typed_in': 40, 'layered': 'groupings of graphs <= 4 nodes into 1..2 intermediate levels, 7 typed-in multi-level strings',
-              'from_graph_rekeyed': 'graphs <= 3 nodes x 4 key schemes', 'random': '60 trees 5..8 nodes + 60 layered', 'repeats_per_cell': 2},
+              'from_graph_rekeyed': 'graphs <= 3 nodes x 4 key schemes', 'random': '60 trees 5..8 nodes + 60 layered', 'repeats_per_cell': 2,
+              'shared_atoms': '12 designs (2-, 3-, 4-fold sharing, hub first/middle/last, bonded / pairwise-marked, two hubs) x all orders of '
+                              '<= 3 coarse nodes (8 seeded orders above) x all-atom/coarse x descriptor before/behind the first atom',
+              'zero_weight': '6 typed-in strings + graphs <= 3 nodes x 4 fills from 7 bodies with weight-0 hydrogens / heavy atoms',
+              'reused_names': '5 typed-in + graphs <= 4 nodes x 2 groupings named after their first member'},
     'thorough': {'base_graphs': 'all connected graphs <= 5 nodes', 'order_variants': 'as quick + 2 seeded assignments', 'repeats_per_cell': 3,
                  'designs': ['unique', 'homo', 'free'], 'last_level': ['all-atom', 'coarse'], 'legacy': [True, False],
                  'virtual_node': 'first / middle / last on graphs <= 4 nodes', 'multiplied_units': '|2 |3 |5', 'typed_in': 40,
                  'layered': 'groupings of graphs <= 5 nodes into 1..3 intermediate levels', 'from_graph_rekeyed': 'graphs <= 4 nodes x 4 key schemes',
-                 'random': '4000 trees + 3000 layered'},
+                 'random': '4000 trees + 3000 layered',
+                 'shared_atoms': 'as quick with 40 seeded orders for designs with > 3 coarse nodes',
+                 'zero_weight': '6 typed-in strings + graphs <= 4 nodes x 8 fills', 'reused_names': '5 typed-in + graphs <= 5 nodes x 4 groupings'},
 }
 EXHAUSTIVE = {'quick': False, 'thorough': False}
 RULE = ('base graph (atlas graph x bond orders, virtual node, multiplied units, typed-in strings, layered strings) x fragment design '
         '(unique labels / homogeneous $ with repeated names / random ambiguous fills) x all-atom or coarse bodies (internal rings, '
-        'explicit H, weights, charges, free annotations) x legacy; the exhaustive part is seeded by the cell, not by VERIF_SEED; '
+        'explicit H, weights incl. 0, charges, free annotations) x legacy; shared-atom designs x order of the coarse nodes; fragment names '
+        'reused across levels; the exhaustive part is seeded by the cell, not by VERIF_SEED; '
         'a case is non-trivial when some step has >= 2 coarse nodes that own fine nodes (so membership, offsets and copies can go wrong); '
         'distinct = distinct (constructor, keys, full string, flags)')
 ASSUMPTIONS = ['cgsmiles.read_fragments returns the template the fragment text denotes (properties C13 / C08)',
                'cgsmiles.read_cgsmiles reads the base string as intended (checked per case against the construction; otherwise the case is skipped)',
                'isomorphism decided by networkx.is_isomorphic / by the recorded mapping verified edge by edge',
-               'pysmiles keeps complete benzene rings aromatic (bond order 1.5 inside templates and copies)']
+               'pysmiles keeps complete benzene rings aromatic (bond order 1.5 inside templates and copies)',
+               'shared-atom family: template atoms are numbered in order of appearance in the fragment text (linear fragments without explicit hydrogens)']
 
 # what a fragment index that is not the coarse node's key looks like (finding F4 and its from_graph variant)
 _F4_CLAUSES = {'fragid-not-a-coarse-node', 'coarse-graph-members', 'virtual-node-owns-atoms', 'fragname', 'copy-size',
